@@ -1347,6 +1347,56 @@ type modLoc struct {
 	mapRef string
 	ghost   string
 	allMaps bool
+	anyDyn  int // any(T).f: every object whose dyntype is anyDyn, slots a.Slot .. a.Slot+n-1
+}
+
+// resolveTypeName: `T` (package of the function under contract) or `pkg.T`.
+func (ev *Eval) resolveTypeName(e Expr) (types.Type, error) {
+	vc := ev.vc
+	look := func(p *types.Package, name string) types.Type {
+		if p == nil {
+			return nil
+		}
+		if tn, ok := p.Scope().Lookup(name).(*types.TypeName); ok {
+			return tn.Type()
+		}
+		return nil
+	}
+	switch x := e.(type) {
+	case *EIdent:
+		fn := vc.root().fn
+		if fn.Pkg != nil {
+			if t := look(fn.Pkg.Pkg, x.Name); t != nil {
+				return t, nil
+			}
+		}
+		// callee contracts are written in the callee's package: search all packages for a unique match
+		var found types.Type
+		for _, p := range vc.P.Prog.AllPackages() {
+			if t := look(p.Pkg, x.Name); t != nil {
+				if _, isS := t.Underlying().(*types.Struct); isS && strings.HasPrefix(p.Pkg.Path(), "0chain.net/") {
+					if found != nil && !types.Identical(found, t) {
+						return nil, fmt.Errorf("type name %s is ambiguous: qualify it", x.Name)
+					}
+					found = t
+				}
+			}
+		}
+		if found != nil {
+			return found, nil
+		}
+	case *ESel:
+		if id, ok := x.X.(*EIdent); ok {
+			for _, p := range vc.P.Prog.AllPackages() {
+				if p.Pkg.Name() == id.Name {
+					if t := look(p.Pkg, x.Name); t != nil {
+						return t, nil
+					}
+				}
+			}
+		}
+	}
+	return nil, fmt.Errorf("unknown type %s", e)
 }
 
 // modLoc interprets a modifies entry:  x.f   x.f[*]   x.*   *p   x.m[*] (map contents)
@@ -1360,6 +1410,29 @@ func (ev *Eval) modLoc(e Expr) ([]modLoc, error) {
 		}
 		if id.Name == "maps" {
 			return []modLoc{{allMaps: true}}, nil
+		}
+	}
+	// any(T).f : field f of every object of named struct type T
+	if s, ok := e.(*ESel); ok {
+		if c, isC := s.X.(*ECall); isC && c.Fn == "any" && len(c.Args) == 1 {
+			T, err := ev.resolveTypeName(c.Args[0])
+			if err != nil {
+				return nil, err
+			}
+			id, isBase := ev.vc.baseType(T)
+			if !isBase {
+				return nil, fmt.Errorf("any(%s): not a named struct type that is only used through pointers", T)
+			}
+			path, ft, okf := findField(T, s.Name)
+			if !okf || len(path) != 1 {
+				return nil, fmt.Errorf("any(%s).%s: no such direct field", T, s.Name)
+			}
+			off, _ := ev.vc.L.FieldOffset(T.Underlying().(*types.Struct), path[0])
+			var so []Sort
+			for _, l := range ev.vc.L.Leaves(ft) {
+				so = append(so, l.Sort)
+			}
+			return []modLoc{{anyDyn: id, a: Addr{"0", num(int64(off)), "0"}, n: len(so), sorts: so}}, nil
 		}
 	}
 	if s, ok := e.(*ESel); ok && s.Name == "$all" {
